@@ -30,6 +30,9 @@ def memorysource_open(h):
                     if name.endswith('.close'):
                         it.trace.append(('close', fn.attrs.get('self')))
                         return None
+                    if isinstance(fn.attrs.get('self'), Opaque) and fn.attrs['self'].kind == 'buffer':
+                        it.trace.append((name.rsplit('.', 1)[-1], fn.attrs['self']))        # any other buffer method: an event
+                        return None
                     raise Unsupported('external call %s' % name)
                 it.opaque_hook = hook
                 it.summaries[SRC + 'Uncloseable'] = lambda interp, args, kw, node: Opaque('uncloseable', 'wrapper', {'inner': args[0]})
